@@ -5,7 +5,7 @@ IMPL = "impl Filter"
 AS_BOOL = Cl(expect="v.as_bool()", types=["T"], ret="(ob: Option<bool>)", ensures=[("def", "ob == v.as_bool_spec()")])
 
 UNITS = [
-    Unit(name="Filter::process", file=F, impl=IMPLQ, fn="process", order=30, trait_method=True, serves=["C05"],
+    Unit(name="Filter::process", calls=['State::flat_map'], file=F, impl=IMPLQ, fn="process", order=30, trait_method=True, serves=["C05"],
          impl_extra="""
     // filter mode: the state carries `@`; the result is the truth value of the logical expression
     open spec fn process_pre<'a, T: Queryable>(&self, state: State<'a, T>) -> bool { wf_filter(*self) && is_cur(state) }
@@ -19,7 +19,7 @@ UNITS = [
          closures={1: Cl(expect="p.is_internal()", types=["Pointer<'a, T>"], ret="(o: Data<'a, T>)",
                          requires=[("wf", "wf_filter(*self)")],
                          ensures=[("cur", "p.path@.len() == 0 ==> o == Data::<'a, T>::Value(T::from_bool_spec(filter_truth(*self, p.inner, root)))")])}),
-    Unit(name="Filter::process_selector", file=F, impl=IMPL, fn="process_selector", order=31, serves=["C05", "C01", "C02"],
+    Unit(name="Filter::process_selector", calls=['State::flat_map'], file=F, impl=IMPL, fn="process_selector", order=31, serves=["C05", "C01", "C02"],
          requires=[("wf", "wf_filter(*self)")],
          ensures=[
              ("root", "r.root == state.root"),
@@ -50,7 +50,7 @@ UNITS = [
              4: Cl(expect="Pointer::key(item, p.path.clone(), key)", types=["(&'a String, &'a T)"], ret="(q: Pointer<'a, T>)",
                    ensures=[("ptr", "nd(q) == (Node { inner: __c4_0.1, path: key_path(p.path@, __c4_0.0@) })")]),
          }),
-    Unit(name="Filter::process_elem", file=F, impl=IMPL, fn="process_elem", order=32, serves=["C05"],
+    Unit(name="Filter::process_elem", calls=['Filter::process', 'FilterAtom::process'], file=F, impl=IMPL, fn="process_elem", order=32, serves=["C05"],
          attrs=["#[verifier::exec_allows_no_decreases_clause]"],
          requires=[("wf", "wf_filter(*self)"), ("cur", "is_cur(state)")],
          ensures=[("truth", "truth_state(state, r, filter_truth(*self, cur_of(state), state.root))")],
